@@ -5,4 +5,16 @@ NOT_APPLICABLE = {
     "C09": "crash-freedom of ~1000 functions x arbitrary inputs has no state/transition structure to specify; deciding it is input fuzzing, a different technique family (DESIGN.md section 6)",
 }
 NOTES = "See DESIGN.md. ./check <id> --tier quick|thorough; exit 0 held / 1 VIOLATION / 2 infrastructure failure (never a verdict)."
-CHECKS = {}
+TRUST = "Trusted: TLC 1.8, the Go harness (vdrive: rendering of stimuli to Lisp text, observation through a registered marker function), python3 orchestration. Bounded: see evidence 'rule'."
+CHECKS = {
+ "C10": {
+  "text": "Model-based conformance: Generic.tla is the reference (method table -> effective method) together with an implementation-shaped cache/fast-path model whose coherence TLC checks as invariants; TLC emits one defmethod/replace/remove-method/call history per transition of the bounded state graph (VIEW includes a ghost of the cache so call-before-definition paths are distinct states) plus random walks; every history is executed against slip built from /repo and every call's method trace is compared with the trace TLC computed.",
+  "design_ref": "DESIGN.md section 3 C10",
+  "note": TRUST + " Sequential histories only in this check; the concurrent clause is exercised by the schedules of the C17 check.",
+  "technique": "TLA+ reference + cache twin (TLC invariants), TLC-generated behaviours replayed into the code (transition cover + simulation)"},
+ "C11": {
+  "text": "Model-based conformance: Flavors.tla recomputes precedence, daemon order and variable inheritance from the definitions (order-independent by construction; design invariants checked by TLC); TLC's interleavings of defflavor/defmethod/defwhopper are the histories (exhaustive to the stated depth, random walks beyond); each is executed against slip and precedence list, daemon trace of a send, variable default/accessor/init keyword of every defined flavor are compared with the values TLC computed.",
+  "design_ref": "DESIGN.md section 3 C11",
+  "note": TRUST,
+  "technique": "TLA+ reference, TLC-generated behaviours replayed into the code (transition cover + simulation)"},
+}
